@@ -1,0 +1,450 @@
+// Verification driver (compiled only with `--cfg picilisp_verif`).
+//
+// `picilisp --verif-driver` reads one request per line on stdin and answers with one
+// line per request on stdout.  Text is transported as decimal code points joined by
+// '.', so that neither side needs an escaping convention.  See /verif/DESIGN.md.
+
+use crate::memory::*;
+use crate::memory::verif::*;
+use crate::metadata::*;
+use crate::util::*;
+use crate::config;
+use std::io::{BufRead, Read, Write};
+use std::rc::Rc;
+use std::cell::RefCell;
+use std::collections::HashMap;
+
+mod heap;
+mod pipe;
+
+// ---------------------------------------------------------------------------
+// helpers
+// ---------------------------------------------------------------------------
+
+pub fn enc(s: &str) -> String {
+    if s.is_empty() {
+        return "-".to_string();
+    }
+    s.chars().map(|c| (c as u32).to_string()).collect::<Vec<_>>().join(".")
+}
+
+pub fn dec(s: &str) -> String {
+    if s == "-" || s.is_empty() {
+        return String::new();
+    }
+    s.split('.').map(|n| char::from_u32(n.parse::<u32>().expect("bad code point")).expect("not a scalar value")).collect()
+}
+
+pub fn dec_bytes(s: &str) -> Vec<u8> {
+    if s == "-" || s.is_empty() {
+        return vec![];
+    }
+    s.split('.').map(|n| n.parse::<u8>().expect("bad byte")).collect()
+}
+
+#[derive(Clone)]
+struct SharedBuf(Rc<RefCell<Vec<u8>>>);
+
+impl Write for SharedBuf {
+    fn write(&mut self, buf: &[u8]) -> std::io::Result<usize> {
+        self.0.borrow_mut().extend_from_slice(buf);
+        Ok(buf.len())
+    }
+    fn flush(&mut self) -> std::io::Result<()> {
+        Ok(())
+    }
+}
+
+/// scripted stdin: returns one chunk per `read` call (split further if the caller's
+/// buffer is smaller), then end of file
+struct ScriptedStdin {
+    chunks: std::collections::VecDeque<Vec<u8>>,
+    reads:  Rc<RefCell<usize>>,
+}
+
+impl Read for ScriptedStdin {
+    fn read(&mut self, buf: &mut [u8]) -> std::io::Result<usize> {
+        *self.reads.borrow_mut() += 1;
+        if let Some(mut chunk) = self.chunks.pop_front() {
+            if chunk.len() > buf.len() {
+                let rest = chunk.split_off(buf.len());
+                self.chunks.push_front(rest);
+            }
+            buf[0 .. chunk.len()].copy_from_slice(&chunk);
+            Ok(chunk.len())
+        }
+        else {
+            Ok(0)
+        }
+    }
+}
+
+// ---------------------------------------------------------------------------
+// structural dump of a value (prefix notation, explicit stack, bounded)
+// ---------------------------------------------------------------------------
+
+pub struct Dumper {
+    natives: HashMap<usize, String>,
+}
+
+impl Dumper {
+    pub fn new(mem: &Memory) -> Self {
+        let mut natives = HashMap::new();
+        for name in NATIVE_NAMES.iter() {
+            if let Ok(x) = mem.get_global_from_module(name, "native") {
+                if let Some(PrimitiveValue::Function(Function::NativeFunction(nf))) = x.get() {
+                    natives.insert(nf.verif_fn_addr(), name.to_string());
+                }
+            }
+        }
+        Self{ natives }
+    }
+
+    pub fn dump(&self, x: &GcRef, limit: usize) -> String {
+        let mut out: Vec<String> = vec![];
+        let mut stack = vec![x.clone()];
+        while let Some(v) = stack.pop() {
+            if out.len() >= limit {
+                out.push("...".to_string());
+                break;
+            }
+            if let Some(md) = v.get_meta() {
+                let loc = match &md.location {
+                    Location::Native                 => "n:0:0".to_string(),
+                    Location::Prelude{line, column}  => format!("p:{line}:{column}"),
+                    Location::Stdin{line, column}    => format!("s:{line}:{column}"),
+                    Location::File{line, column, ..} => format!("f:{line}:{column}"),
+                };
+                out.push(format!("M{}|{}", enc(&md.read_name), loc));
+                stack.push(v.clone_without_meta());
+                continue;
+            }
+            match v.get() {
+                None => out.push("N".to_string()),
+                Some(PrimitiveValue::Number(n))    => out.push(format!("I{n}")),
+                Some(PrimitiveValue::Character(c)) => out.push(format!("C{}", *c as u32)),
+                Some(PrimitiveValue::Symbol(s))    => {
+                    if s.verif_is_unique() {
+                        out.push(format!("U{}", s.get_name().trim_start_matches("#<symbol-").trim_end_matches(">")));
+                    }
+                    else {
+                        out.push(format!("S{}", enc(&s.get_name())));
+                    }
+                },
+                Some(PrimitiveValue::Cons(c)) => {
+                    out.push("K".to_string());
+                    stack.push(c.get_cdr());
+                    stack.push(c.get_car());
+                },
+                Some(PrimitiveValue::Trap(t)) => {
+                    out.push("T".to_string());
+                    stack.push(t.get_trap_body());
+                    stack.push(t.get_normal_body());
+                },
+                Some(PrimitiveValue::Function(Function::NativeFunction(nf))) => {
+                    let name = self.natives.get(&nf.verif_fn_addr()).cloned().unwrap_or("?".to_string());
+                    out.push(format!("A{}", enc(&name)));
+                },
+                Some(PrimitiveValue::Function(Function::NormalFunction(nf))) => {
+                    let params = nf.get_params();
+                    out.push(format!("F{}{}|{}|{}", if nf.get_kind() == FunctionKind::Macro {"m"} else {"l"}, if nf.verif_has_rest() {"r"} else {"n"}, enc(&nf.get_env_module()), params.len()));
+                    stack.push(nf.get_env());
+                    stack.push(nf.get_body());
+                    for p in params.iter().rev() {
+                        stack.push(p.clone());
+                    }
+                },
+            }
+        }
+        if out.is_empty() {"N".to_string()} else {out.join(" ")}
+    }
+}
+
+pub const NATIVE_NAMES: [&str; 40] = ["cons", "car", "cdr", "list", ".", "append", "unrest", "abort", "signal", "read",
+    "make-trap", "make-function", "call-native-function", "macroexpand", "eval", "load-all", "print", "add", "substract",
+    "multiply", "divide", "<", ">", "define", "undefine", "whereis", "export", "get-current-module", "from-module",
+    "with-current-module", "destructure-trap", "destructure-function", "type-of", "get-metadata", "send", "receive",
+    "input-file", "output-file", "gensym", "="];
+
+// ---------------------------------------------------------------------------
+// `run`: evaluate all forms of a text in a fresh interpreter
+// ---------------------------------------------------------------------------
+
+struct RunOpts {
+    prelude:  bool,
+    repl:     bool,
+    debugger: bool,
+    gc:       GcMode,
+    monitor:  bool,
+    stdin:    Option<Vec<Vec<u8>>>,
+    umbilical: Vec<(u64, String)>,   // (poll index, command) to be pending at that poll
+    attach:   bool,
+    limit:    usize,
+}
+
+fn parse_opts(s: &str) -> RunOpts {
+    let mut o = RunOpts{ prelude: true, repl: false, debugger: false, gc: GcMode::Natural, monitor: false, stdin: None, umbilical: vec![], attach: false, limit: 4000 };
+    if s == "-" {
+        return o;
+    }
+    for kv in s.split(',') {
+        let (k, v) = kv.split_once('=').unwrap_or((kv, ""));
+        match k {
+            "env" => {
+                o.prelude  = v.contains('p');
+                o.repl     = v.contains('r');
+                o.debugger = v.contains('d');
+            },
+            "gc" => {
+                o.gc = if v == "nat" {GcMode::Natural}
+                       else if v == "every" {GcMode::Every}
+                       else if let Some(k) = v.strip_prefix("k") {GcMode::EveryK(k.parse().unwrap())}
+                       else if let Some(s) = v.strip_prefix("prng") {GcMode::Prng(s.parse().unwrap())}
+                       else {panic!("bad gc mode")};
+            },
+            "mon"    => o.monitor = v == "1",
+            "limit"  => o.limit = v.parse().unwrap(),
+            "attach" => o.attach = v == "1",
+            "stdin"  => {
+                o.stdin = Some(if v.is_empty() {vec![]} else {v.split('/').map(|c| dec_bytes(c)).collect()});
+            },
+            "umb" => {
+                for item in v.split(';') {
+                    if let Some((k, c)) = item.split_once(':') {
+                        o.umbilical.push((k.parse().unwrap(), c.to_string()));
+                    }
+                }
+            },
+            _ => panic!("unknown option {k}"),
+        }
+    }
+    o
+}
+
+fn fresh_interpreter(o: &RunOpts) -> Result<Memory, String> {
+    let mut mem = Memory::new();
+    crate::native::load_native_functions(&mut mem);
+    if o.prelude {
+        crate::ui::load_prelude(&mut mem)?;
+    }
+    if o.repl {
+        crate::ui::load_repl(&mut mem)?;
+    }
+    if o.debugger {
+        crate::ui::load_debugger(&mut mem)?;
+    }
+    Ok(mem)
+}
+
+fn run_case(opts: &str, text: &str) -> String {
+    let o = parse_opts(opts);
+    set_gc_mode(GcMode::Natural);
+    set_monitor(false);
+    let mut mem = match fresh_interpreter(&o) {
+        Ok(m)  => m,
+        Err(e) => return format!("setup-failed {}", enc(&e)),
+    };
+    let dumper = Dumper::new(&mem);
+    let out = SharedBuf(Rc::new(RefCell::new(vec![])));
+    mem.set_stdout(Box::new(out.clone()));
+    let reads = Rc::new(RefCell::new(0usize));
+    if let Some(chunks) = &o.stdin {
+        mem.set_stdin(Box::new(ScriptedStdin{ chunks: chunks.iter().cloned().collect(), reads: reads.clone() }));
+    }
+    else {
+        mem.set_stdin(Box::new(ScriptedStdin{ chunks: Default::default(), reads: reads.clone() }));
+    }
+    let mut high = None;
+    if o.attach || !o.umbilical.is_empty() {
+        let (h, l) = crate::debug::make_umbilical();
+        mem.attach_umbilical(l);
+        crate::native::eval::verif_set_injections(o.umbilical.clone(), h.to_low_end.clone());
+        high = Some(h);
+    }
+    else {
+        crate::native::eval::verif_clear_injections();
+    }
+    set_gc_mode(o.gc);
+    set_monitor(o.monitor);
+
+    let stdin_sym = mem.symbol_for("stdin");
+    let mut line   = mem.allocate_number(1);
+    let mut column = mem.allocate_number(1);
+    let mut cursor = string_to_list(&mut mem, text);
+    let mut results: Vec<String> = vec![];
+
+    while !cursor.is_nil() {
+        let output = match crate::native::read::read(&mut mem, &[cursor.clone(), stdin_sym.clone(), line.clone(), column.clone()], GcRef::nil(), 1) {
+            Ok(x)  => x,
+            Err(s) => { results.push(format!("rdsig {}", dumper.dump(&s, o.limit))); break; },
+        };
+        let status = crate::native::list::property(&mut mem, "status", output.clone()).unwrap();
+        let status_name = if let Some(PrimitiveValue::Symbol(s)) = status.get() {s.get_name()} else {"?".to_string()};
+        if status_name != "ok" {
+            if status_name != "nothing" {
+                results.push(format!("rd:{status_name}"));
+            }
+            break;
+        }
+        let form = crate::native::list::property(&mut mem, "result", output.clone()).unwrap();
+        cursor   = crate::native::list::property(&mut mem, "rest",   output.clone()).unwrap();
+        line     = crate::native::list::property(&mut mem, "line",   output.clone()).unwrap();
+        column   = crate::native::list::property(&mut mem, "column", output).unwrap();
+        match crate::native::eval::eval(&mut mem, &[form], GcRef::nil(), 0) {
+            Ok(v)  => results.push(format!("ok {}", dumper.dump(&v, o.limit))),
+            Err(s) => {
+                if s.is_nil() {
+                    results.push("abort".to_string());
+                }
+                else {
+                    results.push(format!("sig {}", dumper.dump(&s, o.limit)));
+                }
+                break;
+            },
+        }
+    }
+
+    let polls = crate::native::eval::verif_polls();
+    crate::native::eval::verif_clear_injections();
+    let mut sent = vec![];
+    if let Some(h) = &high {
+        while let Ok(msg) = h.from_low_end.try_recv() {
+            let mut kv = msg.iter().map(|(k, v)| format!("{}={}", enc(k), enc(v))).collect::<Vec<_>>();
+            kv.sort();
+            if msg.get("kind").map(|k| k == crate::debug::MEMORY_SAMPLE).unwrap_or(false) {
+                continue;
+            }
+            sent.push(kv.join("&"));
+        }
+    }
+    let allocs = allocations();
+    let colls  = collections();
+    let monf   = monitor_failure();
+    set_gc_mode(GcMode::Natural);
+    set_monitor(false);
+    let snap = mem.verif_snapshot();
+    let rc_sum: usize = snap.cells.iter().map(|c| c.rc).sum();
+    let ndefs: usize  = snap.modules.iter().map(|(_, d, _)| d.len()).sum();
+    let outs = String::from_utf8_lossy(&out.0.borrow()).to_string();
+    format!("{} | out {} | allocs {} colls {} polls {} reads {} rcsum {} defs {} current {} mon {} | sent {}",
+            if results.is_empty() {"none".to_string()} else {results.join(" ; ")},
+            enc(&outs), allocs, colls, polls, *reads.borrow(), rc_sum, ndefs, enc(&snap.current),
+            monf.map(|m| enc(&m)).unwrap_or("ok".to_string()),
+            if sent.is_empty() {"-".to_string()} else {sent.join(" ")})
+}
+
+// ---------------------------------------------------------------------------
+// `read`: one call of the native `read` on a text, full structural dump of its result
+// ---------------------------------------------------------------------------
+
+fn read_case(line: i64, column: i64, text: &str) -> String {
+    let mut mem = Memory::new();
+    crate::native::load_native_functions(&mut mem);
+    let dumper = Dumper::new(&mem);
+    let stdin_sym = mem.symbol_for("stdin");
+    let l = mem.allocate_number(line);
+    let c = mem.allocate_number(column);
+    let input = string_to_list(&mut mem, text);
+    match crate::native::read::read(&mut mem, &[input, stdin_sym, l, c], GcRef::nil(), 1) {
+        Ok(x)  => format!("ok {}", dumper.dump(&x, 100000)),
+        Err(s) => format!("sig {}", dumper.dump(&s, 100000)),
+    }
+}
+
+// ---------------------------------------------------------------------------
+// complete sweeps over finite domains of library functions the model tabulates
+// ---------------------------------------------------------------------------
+
+fn charclass() -> String {
+    let mut ws = vec![];
+    let mut dg = vec![];
+    for n in 0 .. 0x110000u32 {
+        if let Some(c) = char::from_u32(n) {
+            if c.is_whitespace() {
+                ws.push(n.to_string());
+            }
+            if c.is_ascii_digit() {
+                dg.push(n.to_string());
+            }
+        }
+    }
+    format!("ws {} digit {}", ws.join("."), dg.join("."))
+}
+
+/// first n (if any) up to `upto` where the f32 sizing arithmetic differs from exact rational arithmetic
+fn f32sweep(upto: usize) -> String {
+    let mut first_max = None;
+    let mut first_min = None;
+    let mut first_grow = None;
+    for n in 0 ..= upto {
+        let maxf = (n as f32 * config::MAXIMUM_FREE_RATIO) as usize;
+        let minf = (n as f32 * config::MINIMUM_FREE_RATIO) as usize;
+        let grow = (n as f32 * config::ALLOCATION_RATIO) as usize;
+        if first_max.is_none()  && maxf != n * 3 / 4 { first_max  = Some(n); }
+        if first_min.is_none()  && minf != n / 10    { first_min  = Some(n); }
+        if first_grow.is_none() && grow != n         { first_grow = Some(n); }
+    }
+    let f = |x: Option<usize>| x.map(|n| n.to_string()).unwrap_or("none".to_string());
+    format!("maxfree {} minfree {} grow {}", f(first_max), f(first_min), f(first_grow))
+}
+
+// ---------------------------------------------------------------------------
+// main loop
+// ---------------------------------------------------------------------------
+
+fn handle(line: &str) -> String {
+    let mut it = line.splitn(3, ' ');
+    let id   = it.next().unwrap_or("");
+    let verb = it.next().unwrap_or("");
+    let rest = it.next().unwrap_or("");
+    let answer = std::panic::catch_unwind(std::panic::AssertUnwindSafe(|| {
+        match verb {
+            "run" => {
+                let (opts, text) = rest.split_once(' ').unwrap_or((rest, "-"));
+                run_case(opts, &dec(text))
+            },
+            "read" => {
+                let mut p = rest.splitn(3, ' ');
+                let l = p.next().unwrap().parse::<i64>().unwrap();
+                let c = p.next().unwrap().parse::<i64>().unwrap();
+                read_case(l, c, &dec(p.next().unwrap_or("-")))
+            },
+            "heap"      => heap::heap_case(rest),
+            "pipe"      => pipe::pipe_case(rest),
+            "charclass" => charclass(),
+            "f32sweep"  => f32sweep(rest.trim().parse().unwrap()),
+            "ping"      => "pong".to_string(),
+            _           => format!("unknown-verb {verb}"),
+        }
+    }));
+    match answer {
+        Ok(a)  => format!("{id} {a}"),
+        Err(e) => {
+            let msg = if let Some(s) = e.downcast_ref::<String>() {s.clone()} else if let Some(s) = e.downcast_ref::<&str>() {s.to_string()} else {"?".to_string()};
+            crate::native::eval::verif_clear_injections();
+            set_gc_mode(GcMode::Natural);
+            set_monitor(false);
+            format!("{id} panic {}", enc(&msg))
+        },
+    }
+}
+
+pub fn run() -> Result<(), String> {
+    std::panic::set_hook(Box::new(|_| {}));
+    // evaluate on a thread with the stack the application configures for its worker
+    let worker = std::thread::Builder::new().stack_size(config::CALL_STACK_SIZE).spawn(|| {
+        let stdin = std::io::stdin();
+        let stdout = std::io::stdout();
+        for line in stdin.lock().lines() {
+            let line = match line { Ok(l) => l, Err(_) => break };
+            if line.trim().is_empty() {
+                continue;
+            }
+            let answer = handle(&line);
+            let mut so = stdout.lock();
+            writeln!(so, "{answer}").unwrap();
+            so.flush().unwrap();
+        }
+    }).map_err(|e| e.to_string())?;
+    worker.join().map_err(|_| "driver thread panicked".to_string())
+}
